@@ -58,7 +58,7 @@ extern "C" lzma_ret lzma_code(lzma_stream* s, lzma_action act) { static auto rea
 
 // ------------------------------------------------------------------ scenarios
 struct Step { char op; int n; std::string name; bool exp; };      // 'Q' buffer n records, 'R' rotate(name, exp), 'W' write_block
-struct Scenario { std::string name; int comp; bool fd; std::vector<Step> steps; std::string preexisting; };
+struct Scenario { std::string name; int comp; bool fd; std::vector<Step> steps; std::string preexisting; bool stale_part = false; };
 static const char* ext_of(int comp) { return comp == 1 ? ".gz" : comp == 2 ? ".xz" : ""; }
 
 static std::vector<Scenario> scenarios(bool fd_too) {
@@ -73,6 +73,8 @@ static std::vector<Scenario> scenarios(bool fd_too) {
         // high-entropy records: the compressor still holds several KB when the output is closed, so finishing the stream takes several passes
         v.push_back({"entropy-single-" + c, comp, (bool)fd, {{'H', 5, "", false}}, ""});
         if (!fd) v.push_back({"entropy-rotations-" + c, comp, false, {{'H', 4, "", false}, {'R', 0, "outB", true}, {'H', 3, "", false}, {'R', 0, "outA", true}, {'H', 2, "", false}}, ""});
+        // a previous run died and left '<name><suffix>.part' files behind (for the first output and for a rotation target): they must not leak into the new outputs
+        if (!fd) v.push_back({"stale-part-" + c, comp, false, {{'Q', 2, "", false}, {'R', 0, "outB", true}, {'Q', 1, "", false}}, "", true});
         v.push_back({"buffered-unwritten-" + c, comp, (bool)fd, {{'Q', 1, "", false}}, ""});
         v.push_back({"nothing-" + c, comp, (bool)fd, {}, ""});
     }
@@ -167,7 +169,9 @@ int main(int argc, char** argv) {
     // one task per scenario; each explores all of its k (and fault kinds) in forked grandchildren
     auto explore = [&](const Scenario& sc, Result& R, long only_k, int only_fault, int only_persist) {
         std::string dir = top + "/t" + std::to_string(getpid()); mkdir(dir.c_str(), 0700); g_track = dir;
-        auto prepare = [&]() { clean_dir(dir); if (!sc.preexisting.empty()) {
+        auto prepare = [&]() { clean_dir(dir);
+            if (sc.stale_part) for (const char* n : {"outA", "outB"}) { std::string junk(20000, 0); for (size_t i = 0; i < junk.size(); i++) junk[i] = (char)(i * 7 + 3); spit(dir + "/" + n + ext_of(sc.comp) + ".part", junk); }
+            if (!sc.preexisting.empty()) {
             // older complete output of the same kind under the final name
             BlockParameters bp; std::vector<BlockParameters> bps = {bp}; FilePreamble fp(bps);
             { CdnsExporter e(fp, dir + "/" + sc.preexisting, sc.comp == 1 ? CborOutputCompression::GZIP : sc.comp == 2 ? CborOutputCompression::XZ : CborOutputCompression::NO_COMPRESSION); e.buffer_qr(big_record(99)); e.write_block(); } } };
